@@ -482,31 +482,87 @@ pub fn inject_one(rng: &mut Rng, base: &TsDoc, which: usize) -> Option<Fault> {
         }
         // ---------------- TS10 recursive directive definitions
         _ => {
-            if rng.coin() {
+            // a cycle of k directive definitions; each hop from one directive to the next goes through one of seven routes
+            let k = 1 + rng.below(3);
+            let all_locs = ["ARGUMENT_DEFINITION", "INPUT_FIELD_DEFINITION", "INPUT_OBJECT", "ENUM_VALUE", "ENUM", "SCALAR"];
+            let mut hops = vec![];
+            for i in 0..k {
+                let next = format!("cyc{}", (i + 1) % k);
+                let hop = rng.below(7);
+                let apply = || vec![Dir::new(&next, vec![])];
+                let arg_ty;
+                let mut arg_dirs = vec![];
+                match hop {
+                    0 => {
+                        arg_ty = Ty::named("Int");
+                        arg_dirs = apply();
+                    }
+                    1 => {
+                        let mut t = TypeDef::new(TKind::Input, &format!("CycIn{i}"));
+                        t.input_fields.push(InputValueDef { desc: None, name: nm("f"), ty: Ty::named("Int"), default: None, dirs: apply() });
+                        doc.defs.push(TsDef::Type(t));
+                        arg_ty = Ty::named(&format!("CycIn{i}"));
+                    }
+                    2 => {
+                        let mut t = TypeDef::new(TKind::Input, &format!("CycIn{i}"));
+                        t.dirs = apply();
+                        t.input_fields.push(InputValueDef { desc: None, name: nm("f"), ty: Ty::named("Int"), default: None, dirs: vec![] });
+                        doc.defs.push(TsDef::Type(t));
+                        arg_ty = Ty::list(Ty::non_null(Ty::named(&format!("CycIn{i}"))));
+                    }
+                    3 => {
+                        let mut t = TypeDef::new(TKind::Enum, &format!("CycEn{i}"));
+                        t.values.push(EnumValDef { desc: None, name: nm("PLAIN"), dirs: vec![] });
+                        t.values.push(EnumValDef { desc: None, name: nm("MARKED"), dirs: apply() });
+                        doc.defs.push(TsDef::Type(t));
+                        arg_ty = Ty::named(&format!("CycEn{i}"));
+                    }
+                    4 => {
+                        let mut t = TypeDef::new(TKind::Enum, &format!("CycEn{i}"));
+                        t.dirs = apply();
+                        t.values.push(EnumValDef { desc: None, name: nm("PLAIN"), dirs: vec![] });
+                        doc.defs.push(TsDef::Type(t));
+                        arg_ty = Ty::non_null(Ty::named(&format!("CycEn{i}")));
+                    }
+                    5 => {
+                        let mut t = TypeDef::new(TKind::Scalar, &format!("CycSc{i}"));
+                        t.dirs = apply();
+                        doc.defs.push(TsDef::Type(t));
+                        arg_ty = Ty::named(&format!("CycSc{i}"));
+                    }
+                    _ => {
+                        // through an input type nested inside the argument's input type
+                        let mut inner = TypeDef::new(TKind::Input, &format!("CycInner{i}"));
+                        inner.input_fields.push(InputValueDef { desc: None, name: nm("g"), ty: Ty::named("Int"), default: None, dirs: apply() });
+                        doc.defs.push(TsDef::Type(inner));
+                        let mut t = TypeDef::new(TKind::Input, &format!("CycIn{i}"));
+                        t.input_fields.push(InputValueDef { desc: None, name: nm("f"), ty: Ty::named(&format!("CycInner{i}")), default: None, dirs: vec![] });
+                        doc.defs.push(TsDef::Type(t));
+                        arg_ty = Ty::named(&format!("CycIn{i}"));
+                    }
+                }
+                hops.push(["arg", "input-field", "input-object", "enum-value", "enum", "scalar", "nested-input-type"][hop]);
+                let mut args = vec![InputValueDef { desc: None, name: nm("x"), ty: arg_ty, default: None, dirs: arg_dirs }];
+                if rng.coin() {
+                    // an innocent sibling argument, before or after
+                    let sib = InputValueDef { desc: None, name: nm("other"), ty: Ty::named("String"), default: None, dirs: vec![] };
+                    if rng.coin() { args.insert(0, sib) } else { args.push(sib) }
+                }
                 doc.defs.push(TsDef::Directive(DirectiveDef {
                     desc: None,
                     p: P::none(),
-                    name: nm("selfref"),
-                    args: vec![InputValueDef { desc: None, name: nm("x"), ty: Ty::named("Int"), default: None, dirs: vec![Dir::new("selfref", vec![])] }],
+                    name: nm(&format!("cyc{i}")),
+                    args,
                     repeatable: false,
                     repeatable_p: P::none(),
-                    locations: vec![nm("ARGUMENT_DEFINITION")],
+                    locations: all_locs.iter().map(|l| nm(l)).collect(),
                 }));
-                done!("TS10", "directive-recursive|direct");
             }
-            let mut t = TypeDef::new(TKind::Input, "LoopIn");
-            t.input_fields.push(InputValueDef { desc: None, name: nm("f"), ty: Ty::named("Int"), default: None, dirs: vec![Dir::new("loopdir", vec![])] });
-            doc.defs.push(TsDef::Type(t));
-            doc.defs.push(TsDef::Directive(DirectiveDef {
-                desc: None,
-                p: P::none(),
-                name: nm("loopdir"),
-                args: vec![InputValueDef { desc: None, name: nm("x"), ty: Ty::named("LoopIn"), default: None, dirs: vec![] }],
-                repeatable: false,
-                repeatable_p: P::none(),
-                locations: vec![nm("INPUT_FIELD_DEFINITION")],
-            }));
-            done!("TS10", "directive-recursive|through-input-type");
+            rng.shuffle(&mut doc.defs);
+            let mut hs = hops.clone();
+            hs.sort();
+            hs.dedup();
+            done!("TS10", format!("directive-recursive|cycle-of-{k}|via={}", hs.join("+")));
         }
     }
 }
